@@ -154,8 +154,13 @@ def case_together(ctx, inp):
     refs = [canon_val(r) for _, r in built]
     with warnings.catch_warnings():
         warnings.simplefilter("ignore")
-        together = dask.compute(*colls, scheduler=inp.get("scheduler", "sync"), optimize_graph=inp.get("optimize_graph", True))
         alone = [c.compute(scheduler="sync") for c in colls]
+        try:
+            together = dask.compute(*colls, scheduler=inp.get("scheduler", "sync"), optimize_graph=inp.get("optimize_graph", True))
+        except Exception as e:
+            ctx.fail(f"computing the collections together raised {type(e).__name__}: {str(e)[:150]} (each computes alone)",
+                     observed=type(e).__name__)
+            return
     tg = [canon_val(v) for v in together]
     al = [canon_val(v) for v in alone]
     fams = [_kind_family(p) for p in progs]
